@@ -32,6 +32,8 @@
 #include "json/cJSON.h"
 
 static const double MIN_TIMEOUT_IN_S = 0.001;
+/* the largest whole number of seconds whose nanoseconds still fit into 64 bits */
+static const double MAX_TIMEOUT_IN_S = 18446744073.0;
 
 uint64_t convert_seconds_to_nsec(double seconds)
 {
@@ -47,6 +49,9 @@ uint64_t get_timeout_in_nsec(const struct peer *p, const cJSON *request, const c
 		} else {
 			if (timeout->valuedouble < MIN_TIMEOUT_IN_S) {
 				*response = create_error_response_from_request(p, request, INVALID_PARAMS, "reason", "timeout value is too small");
+				return 0;
+			} else if (timeout->valuedouble > MAX_TIMEOUT_IN_S) {
+				*response = create_error_response_from_request(p, request, INVALID_PARAMS, "reason", "timeout value is too large");
 				return 0;
 			} else {
 				return convert_seconds_to_nsec(timeout->valuedouble);
